@@ -1,0 +1,56 @@
+//go:build verif
+
+// Contracts for govc (contract-based deductive verification); comment-only, compiled only with -tags verif.
+package query
+
+// ---- L1 info tree data for a certificate (C09). The L1 info tree syncer is the boundary: its answers are ghost
+// functions of the global exit root / leaf index / root (the syncer's own side is covered under C08 and C11).
+
+//@ spec fn l1ProofFrom(index int, root Hash) []Hash
+//@ spec fn l1RootHashAt(index int) Hash
+//@ axiom gerProofIsIndexProof(g Hash, r Hash) : gerProofTo(g, r) == l1ProofFrom(gerLeafIndex(g), r) @trigger gerProofTo(g, r)
+
+//@ interface github.com/agglayer/aggkit/aggsender/types.L1InfoTreeSyncer.GetInfoByGlobalExitRoot (self, globalExitRoot)
+//@   modifies nothing
+//@   ensures result1 != nil ==> result0 == nil
+//@   ensures result1 == nil ==> result0 != nil && result0.GlobalExitRoot == globalExitRoot && result0.L1InfoTreeIndex == gerLeafIndex(globalExitRoot) && result0.Timestamp == gerLeafTimestamp(globalExitRoot) && result0.PreviousBlockHash == gerLeafPrevBlockHash(globalExitRoot)
+
+//@ interface github.com/agglayer/aggkit/aggsender/types.L1InfoTreeSyncer.GetL1InfoTreeMerkleProofFromIndexToRoot (self, ctx, index, root)
+//@   modifies nothing
+//@   ensures result1 == nil ==> result0 == l1ProofFrom(index, root)
+
+//@ interface github.com/agglayer/aggkit/aggsender/types.L1InfoTreeSyncer.GetL1InfoTreeRootByIndex (self, ctx, index)
+//@   modifies nothing
+//@   ensures result1 == nil ==> result0.Index == index && result0.Hash == l1RootHashAt(index)
+
+//@ interface github.com/agglayer/aggkit/aggsender/types.L1InfoTreeSyncer.GetLatestInfoUntilBlock (self, ctx, blockNum)
+//@   modifies nothing
+//@   ensures result1 != nil ==> result0 == nil
+//@   ensures result1 == nil ==> result0 != nil && result0.BlockNumber <= blockNum
+
+//@ func (l *L1InfoTreeDataQuerier) GetProofForGER
+//@   props C09
+//@   requires l != nil && l.l1InfoTreeSyncer != nil
+//@   modifies nothing
+//@   ensures[error-means-nothing] result2 != nil ==> result0 == nil
+//@   ensures[leaf-of-the-ger] result2 == nil ==> result0 != nil && result0.GlobalExitRoot == ger && result0.L1InfoTreeIndex == gerLeafIndex(ger) && result0.Timestamp == gerLeafTimestamp(ger) && result0.PreviousBlockHash == gerLeafPrevBlockHash(ger)
+//@   ensures[proof-from-that-leaf-to-the-chosen-root] result2 == nil ==> result1 == l1ProofFrom(result0.L1InfoTreeIndex, rootFromWhichToProve) && result1 == gerProofTo(ger, rootFromWhichToProve)
+
+//@ func (l *L1InfoTreeDataQuerier) CheckIfClaimsArePartOfFinalizedL1InfoTree
+//@   props C09
+//@   requires l != nil && l.l1InfoTreeSyncer != nil && finalizedL1InfoTreeRoot != nil
+//@   modifies nothing
+//@   ensures[all-at-or-below-root] result == nil ==> forall(k, 0, len(claims), gerLeafIndex(claims[k].GlobalExitRoot) <= finalizedL1InfoTreeRoot.Index)
+//@   loop 0 invariant 0 <= rangeindex + 1 && rangeindex + 1 <= len(claims)
+//@   loop 0 invariant forall(k, 0, rangeindex + 1, gerLeafIndex(claims[k].GlobalExitRoot) <= finalizedL1InfoTreeRoot.Index)
+
+//@ func (l *L1InfoTreeDataQuerier) getLatestProcessedFinalizedBlock
+//@   trusted
+//@   modifies nothing
+
+//@ func (l *L1InfoTreeDataQuerier) GetLatestFinalizedL1InfoRoot
+//@   props C09
+//@   requires l != nil && l.l1InfoTreeSyncer != nil
+//@   modifies nothing
+//@   ensures[error-means-nothing] result2 != nil ==> result0 == nil && result1 == nil
+//@   ensures[root-of-the-leaf] result2 == nil ==> result0 != nil && result1 != nil && result0.Index == result1.L1InfoTreeIndex && result0.Hash == l1RootHashAt(result1.L1InfoTreeIndex)
